@@ -18,7 +18,7 @@ Failure classes (first words of the message; one known-finding entry per class i
   oracle closed-eagain         ... same, the descriptor was closed by another fiber meanwhile
   oracle oob                   an index into fd_info / wait_info outside [0, max_fd)
   oracle bad-fd-crash          SIGSEGV inside a shim called with an invalid descriptor
-  oracle bad-fd-noerror        an invalid descriptor did not yield an error return
+  oracle invalid-fd-noerror        an invalid descriptor did not yield an error return
   oracle zerolen-blocked       a zero-length read parked although the plain call returns at once
   oracle fcntl-mode            fcntl(F_SETFL, <flags incl./excl. O_NONBLOCK>) did not switch the mode
   oracle getfl-nonblock        F_GETFL shows the library's private O_NONBLOCK
@@ -159,7 +159,8 @@ def analyse(log_path, case, native=False):
     maxfd = 20000
     mode_nb = {}        # fd -> user asked for non-blocking
     mode_seq = {}       # fd -> line number of the last mode change
-    close_seq = {}      # fd -> line number of the last successful close
+    close_seq = {}      # fd -> line number of the last close() call
+    closing = {}        # fd -> line of a close() call on the current incarnation of the number
     peer = {}
     inq = {}            # fd -> bytes readable
     wr_shut = set()
@@ -216,6 +217,9 @@ def analyse(log_path, case, native=False):
                     cur[fib]["waited"] = True
             elif a[0] == "call":
                 fd = int(a[2])
+                if a[1] == "close":
+                    close_seq[fd] = ln      # fiber_fd_closed wakes the waiters BEFORE the real close
+                    closing[fd] = ln
                 cur[fib] = {"name": a[1], "fd": fd, "n": int(a[3]), "dw": a[4] == "1", "line": ln,
                             "nb": mode_nb.get(fd, False), "waited": False, "sys": [], "op": curop.get(fib)}
             elif a[0] == "sys":
@@ -230,6 +234,7 @@ def analyse(log_path, case, native=False):
                             peer[y] = x
                             inq[x] = 0
                         for z in (x, y):
+                            closing.pop(z, None)
                             mode_nb[z] = False
                             closed.discard(z)
                             wr_shut.discard(z)
@@ -247,10 +252,10 @@ def analyse(log_path, case, native=False):
                     inq[fd] -= r
                 if name == "close" and r == 0:
                     closed.add(fd)
-                    close_seq[fd] = ln
                     mode_nb.pop(fd, None)
                     mode_seq[fd] = ln
                 if name in ("accept", "socket") and r >= 0:
+                    closing.pop(r, None)
                     mode_nb[r] = False
                     closed.discard(r)
                     wr_shut.discard(r)
@@ -267,7 +272,7 @@ def analyse(log_path, case, native=False):
                 bad = is_bad_fd(fd, maxfd)
                 where = "%s(fd %d) by fiber %d, op %s" % (name, fd, fib, c["op"][2] if c["op"] else "?")
                 stable_mode = mode_seq.get(fd, 0) < c["line"]
-                closed_during = close_seq.get(fd, 0) > c["line"]
+                closed_during = close_seq.get(fd, 0) > c["line"] or fd in closing
                 if name == "shutdown" and r == 0:
                     wr_shut.add(fd)
                 # mode bookkeeping (what the USER asked for)
@@ -288,9 +293,9 @@ def analyse(log_path, case, native=False):
                             r, "non-blocking" if mode_nb.get(fd, False) else "blocking", where))
                 if bad and name not in ("socket", "socketpair", "pipe"):
                     if r != -1:
-                        fails.append("oracle bad-fd-noerror returned %d: %s" % (r, where))
+                        fails.append("oracle invalid-fd-noerror returned %d: %s" % (r, where))
                     continue
-                if name in READS and c["n"] == 0 and c["waited"] and not (c["nb"] or c["dw"]):
+                if name in ("read", "readv") and c["n"] == 0 and c["waited"] and not (c["nb"] or c["dw"]):
                     fails.append("oracle zerolen-blocked zero-length %s parked: %s" % (name, where))
                 if name in BLOCKERS and not native:
                     nonblocking = c["nb"] or c["dw"]
@@ -347,7 +352,7 @@ def analyse(log_path, case, native=False):
             where = "%s(fd %d) by fiber %d, op %s" % (c["name"], fd, fb, c["op"][2] if c["op"] else "?")
             if (c["nb"] and mode_seq.get(fd, 0) < c["line"]) or c["dw"]:
                 why.append("oracle nonblocking-blocked parked for ever: " + where)
-            elif c["name"] in READS and c["n"] == 0:
+            elif c["name"] in ("read", "readv") and c["n"] == 0:
                 why.append("oracle zerolen-blocked zero-length %s parked: %s" % (c["name"], where))
             else:
                 ready = fd in closed or (c["name"] in READS and (inq.get(fd, 0) > 0 or peer.get(fd) in closed or
@@ -570,7 +575,9 @@ def gen_close(rng):
 
 
 def gen_zerolen(rng):
-    a = ["%s1_0" % rng.choice(RD1)]
+    # (a zero-length recv/recvfrom/recvmsg on an empty stream socket blocks in the kernel too;
+    #  read/readv return 0 at once)
+    a = ["%s1_0" % rng.choice(["rd", "rv"])]
     b = ys(rng, 1, 3) + (["wr0_5"] if rng.random() < 0.5 else [])
     return "S0", ",".join(a) + "|" + ",".join(b), True
 
@@ -625,7 +632,8 @@ def gen_io(rng, tier):
             setup, script, cmp_ = gen_dyn(rng)
         k = 1 if kind == "spin" else rng.choice([1, 1, 2, 2, 3])
         env = sched_env(rng, budget=600000 if kind != "streambig" else 1500000)
-        env["VR_HANG"] = 4000
+        env["VR_HANG"] = 3000
+        env["VR_AUTOTICK"] = 0
         env["VR_MAXEV"] = 1 << 21
         cases.append({"args": ["f", k, setup, script], "env": env, "kind": kind, "cmp": cmp_, "timeout": 120})
     return cases
